@@ -244,6 +244,34 @@ func costFamily(family string, n int) []costCall {
 		}
 		obs := costEncodeObs(p, llo.Observation{UnixTimestampNanoseconds: 3_000_000_000, StreamValues: vals})
 		return []costCall{costValidateCall(p, obs)}
+	case "shared-tsv-stream": // n channels that all aggregate ONE timestamped stream; one byzantine long-digit value
+		prev := llo.Outcome{LifeCycleStage: llo.LifeCycleStageProduction, ObservationTimestampNanoseconds: 2_000_000_000,
+			ChannelDefinitions: llotypes.ChannelDefinitions{}, ValidAfterNanoseconds: map[llotypes.ChannelID]uint64{}}
+		for c := 1; c <= n; c++ {
+			prev.ChannelDefinitions[uint32(c)] = llotypes.ChannelDefinition{ReportFormat: llotypes.ReportFormatJSON,
+				Streams: []llotypes.Stream{{StreamID: 7, Aggregator: llotypes.AggregatorMedian}}}
+			prev.ValidAfterNanoseconds[uint32(c)] = 1_000_000_000
+		}
+		prevB, err := p.OutcomeCodec.Encode(prev)
+		if err != nil {
+			panic(err)
+		}
+		mk := func(d decimal.Decimal, at uint64) []byte {
+			return costEncodeObs(p, llo.Observation{UnixTimestampNanoseconds: 3_000_000_000,
+				StreamValues: llo.StreamValues{7: &llo.TimestampedStreamValue{ObservedAtNanoseconds: at, StreamValue: llo.ToDecimal(d)}}})
+		}
+		obsList := [][]byte{mk(decimal.New(1000, -2), 2_900_000_000), mk(decimal.New(1001, -2), 2_900_000_001),
+			mk(decimal.New(1002, -2), 2_900_000_002), mk(costBigDecimal(900_000, 1, 0), 2_900_000_003)}
+		var aos []types.AttributedObservation
+		total := len(prevB)
+		for i, o := range obsList {
+			aos = append(aos, types.AttributedObservation{Observation: o, Observer: commontypes.OracleID(i)})
+			total += len(o)
+		}
+		return []costCall{{"Outcome", total, func() error {
+			_, err := p.Outcome(context.Background(), ocr3types.OutcomeContext{SeqNr: 3, PreviousOutcome: prevB}, nil, aos)
+			return err
+		}}}
 	case "vote-lists": // n remove votes
 		ids := make([]uint32, n)
 		for i := range ids {
@@ -608,7 +636,7 @@ func init() {
 	})
 	RegGen("C19", "cost.measure (implementation only): per family a size-doubling series measured in child processes — nested timestamped values up to 1 MiB, "+
 		"up to 70 000 stream values / quotes, up to 200 000 remove votes and channel definitions, coefficients up to 1 MiB, exponent gaps up to 2^20, "+
-		"errors joined in a loop and formatted (5 definitions × up to 10 000 zero-aggregator streams, up to 4 000 failing definitions, up to 64 000 undecodable stream values in one observation, up to 9 998 failing EVM payload values, mercury v3 Report with every consensus failing), "+
+		"errors joined in a loop and formatted (5 definitions × up to 10 000 zero-aggregator streams, up to 4 000 failing definitions, up to 64 000 undecodable stream values in one observation, up to 2 000 channels aggregating one timestamped stream with a long-digit byzantine value, up to 9 998 failing EVM payload values, mercury v3 Report with every consensus failing), "+
 		"and the F2 witness capped at 3 s; callbacks: ValidateObservation, ObservationCodec.Decode, Median/Quote/ModeAggregator, Outcome, Reports, Quote.IsValid, evm.CalculateFee; "+
 		"non-trivial = at least one callback measured", genC19Measure)
 	RegMonitor("C19", monC19Measure)
@@ -646,6 +674,7 @@ func genC19Measure(g *G) {
 		m("verify-errors", append(doubling(125, 8000), 10000, 20000), doubling(125, 8000))
 		m("verify-errors-defs", append(doubling(125, 2000), 4000), nil)
 		m("decode-errors", doubling(1000, 64000), nil)
+		m("shared-tsv-stream", []int{250, 500, 1000, 2000}, nil)
 		m("evm-payload-errors", append(doubling(125, 8000), 9998), nil)
 		m("mercury-report-errors", []int{1}, nil)
 	} else {
@@ -661,6 +690,7 @@ func genC19Measure(g *G) {
 		m("verify-errors", []int{500, 2000, 10000}, []int{500, 2000})
 		m("verify-errors-defs", []int{500, 2000}, nil)
 		m("decode-errors", []int{2000, 8000, 64000}, nil)
+		m("shared-tsv-stream", []int{500, 2000}, nil)
 		m("evm-payload-errors", []int{500, 2000, 9998}, nil)
 		m("mercury-report-errors", []int{1}, nil)
 	}
